@@ -319,6 +319,13 @@ func (vt *v2T) scenC04() {
 			break
 		}
 	}
+	// two user documents every process has: one whose words repeat (an input that is most of it has the sequence but not the word
+	// statistics: whether it is found must not depend on anything but corpus and input -- not on tracing, not on history), one
+	// written with the words that have a second spelling
+	c04Phrase := "redistribution and use in source or binary forms are hereby permitted\n"
+	base = append(base, v2Doc{Key: "License/Repetitive/license.txt", Cat: "License", Name: "Repetitive", Variant: "license.txt", Data: []byte(strings.Repeat(c04Phrase, 4) + "provided nobody complains loudly\n")},
+		v2Doc{Key: "License/Spelled/license.txt", Cat: "License", Name: "Spelled", Variant: "license.txt", Data: []byte("this license is granted by the organization while the program is in use\nfor the purpose of fulfillment of the license the owner of the copyright favors no one\nand the center of the analog catalog is judged by the sublicense and the acknowledgment\n")})
+	c04Spelled := []byte("This Licence is granted by the Organisation whilst the Programme is in use\nfor the purpose of fulfilment of the Licence the owner of the copyright favours no one\nand the centre of the analogue catalogue is judged by the sub-license and the acknowledgement\n")
 	proc := os.Getenv("VERIF_PROC")
 	perm := func() []v2Doc {
 		p := vt.rng.Perm(len(base))
@@ -351,6 +358,9 @@ func (vt *v2T) scenC04() {
 		vt.add(c6, d)
 	}
 	cs := []*v2C{c1, c2, c3, c4, c5, c6}
+	// two of them have normalized the text with the other spellings (and a re-cased copy of it) before anything is matched
+	vt.normalize(c5, c04Spelled)
+	vt.normalize(c2, []byte(strings.ToUpper(string(c04Spelled))))
 	// inputs: the same in every process
 	sub := newV2Sub(vuSeed() + 7)
 	var inputs [][]byte
@@ -378,6 +388,7 @@ func (vt *v2T) scenC04() {
 	if tailOwner != nil {
 		inputs = append(inputs, tailOwner)
 	}
+	inputs = append(inputs, []byte(strings.Repeat(c04Phrase, 4)), []byte("zzqxv qqzzk\n"+strings.Repeat(c04Phrase, 4)+"xqzvv\n"), c04Spelled)
 	// long documents with scattered edits (both sides of the diff far beyond 100 words)
 	nlong := 0
 	for _, i := range sub.rng.Perm(len(base)) {
